@@ -318,6 +318,10 @@ def verify_hyperparameters(num_input_dims=None,
         raise ValueError("Monotonic dominance constraints must consist of 2 "
                          "elements. Seeing constraint tuple %s" % (constraint,))
       dominant_dim, weak_dim = constraint
+      if dominant_dim == weak_dim:
+        raise ValueError("Monotonic dominance constraint must relate two "
+                         "different dimensions. Seeing constraint tuple %s" %
+                         (constraint,))
       if (dominant_dim >= num_input_dims or weak_dim >= num_input_dims or
           dominant_dim < 0 or weak_dim < 0):
         raise ValueError("Dimensions constrained by monotonic dominance "
@@ -348,6 +352,10 @@ def verify_hyperparameters(num_input_dims=None,
         raise ValueError("Range dominance constraints must consist of 2 "
                          "elements. Seeing constraint tuple %s" % (constraint,))
       dominant_dim, weak_dim = constraint
+      if dominant_dim == weak_dim:
+        raise ValueError("Range dominance constraint must relate two "
+                         "different dimensions. Seeing constraint tuple %s" %
+                         (constraint,))
       if (dominant_dim >= num_input_dims or weak_dim >= num_input_dims or
           dominant_dim < 0 or weak_dim < 0):
         raise ValueError("Dimensions constrained by range dominance "
